@@ -38,7 +38,8 @@ REQUIRED_KINDS = (
     ['integration', 'typechecked', 'gen', 'rec:vertical', 'rec:flat',
      'rec:iterative_auto', 'rec:iterative_forced', 'rec:diamond', 'functor',
      'imports', 'incantation', 'toomuch', 'stopfile', 'iteration', 'victim',
-     'fails:parse', 'fails:compile', 'fails:type', 'fails:exec'] +
+     'fails:parse', 'fails:compile', 'fails:type', 'fails:exec',
+     'importhist'] +
     ['engine:' + e for e in ENGINES])
 
 
@@ -217,6 +218,42 @@ MODULES = {
         'Weight(a, b) = Helper(a) + b :- Edge(a, b);\n'),
 }
 
+# A module tree with two files of the same base name in different directories,
+# a distinct-name module and a nested import: the prefix an imported file gets
+# depends on which other files the SAME main program imports, so main programs
+# importing different subsets / orders of them must not influence each other.
+MODULES.update({
+    'imptree/shop/util.l': (
+        'Price(item: "apple", price: 3);\nPrice(item: "pear", price: 5);\n'
+        'Helper(x) = x * 2;\nDouble(item:, d: Helper(price)) :- Price(item:, price:);\n'),
+    'imptree/depot/util.l': (
+        'Stock(item: "apple", n: 10);\nStock(item: "fig", n: 2);\n'
+        'Helper(x) = x + 1;\nMore(item:, m: Helper(n)) :- Stock(item:, n:);\n'),
+    'imptree/misc/tools.l': (
+        'Tag(item: "apple", tag: "red");\nTag(item: "fig", tag: "blue");\n'),
+    'imptree/depot/stock.l': (
+        'import imptree.depot.util.Stock;\nimport imptree.depot.util.More;\n'
+        'Level(item:, level: n + m) :- Stock(item:, n:), More(item:, m:);\n'),
+})
+
+IMPORT_HISTORY_MAINS = [
+    ('imph/both', '@Engine("sqlite");\n'
+     'import imptree.shop.util.Price;\nimport imptree.depot.util.Stock;\n'
+     'Out(item:, v: price * n) :- Price(item:, price:), Stock(item:, n:);\n'),
+    ('imph/depot_only', '@Engine("sqlite");\n'
+     'import imptree.depot.util.Stock;\nimport imptree.depot.util.More;\n'
+     'Out(item:, n:, m:) :- Stock(item:, n:), More(item:, m:);\n'),
+    ('imph/other_order', '@Engine("sqlite");\n'
+     'import imptree.depot.util.Stock;\nimport imptree.shop.util.Double;\n'
+     'Out(item:, v: d + n) :- Double(item:, d:), Stock(item:, n:);\n'),
+    ('imph/shop_tools', '@Engine("psql");\n'
+     'import imptree.misc.tools.Tag;\nimport imptree.shop.util.Price;\n'
+     'Out(item:, tag:, price:) :- Tag(item:, tag:), Price(item:, price:);\n'),
+    ('imph/nested', '@Engine("sqlite");\n'
+     'import imptree.depot.stock.Level;\nimport imptree.shop.util.Price;\n'
+     'Out(item:, level:, price:) :- Level(item:, level:), Price(item:, price:);\n'),
+]
+
 IMPORT_MAINS = [
     ('imp/diamond', '@Engine("sqlite");\n'
      'import c13lib.paths.Path;\nimport c13lib.paths.Far;\n'
@@ -373,6 +410,20 @@ def HandEntries():
       kinds.append('functor')
     out.append({'id': id_, 'kind': kinds, 'text': text, 'preds': preds,
                 'user_flags': {}, 'import_root': '$MODULES'})
+  for parser in ('PY', 'CPP'):
+    for id_, text in IMPORT_HISTORY_MAINS:
+      mods = sorted(set(re.findall(r'import (imptree\.\w+\.\w+)\.', text)))
+      if 'imptree.depot.stock' in mods:
+        mods.append('imptree.depot.util')
+      engine = EngineOf(text)
+      kinds = ['imports', 'importhist', 'parser:' + parser,
+               'engine:' + engine]
+      if engine in TYPECHECKED_ENGINES:
+        kinds.append('typechecked')
+      out.append({'id': id_ + ('' if parser == 'PY' else '@cpp'),
+                  'kind': kinds, 'text': text, 'preds': ['Out'],
+                  'user_flags': {}, 'import_root': '$MODULES',
+                  'parser': parser, 'modules': sorted(set(mods))})
   for id_, text, preds in TOOMUCH_PROGRAMS:
     out.append({'id': id_, 'kind': ['toomuch', 'engine:' + EngineOf(text)],
                 'text': text, 'preds': preds, 'user_flags': {},
@@ -469,6 +520,8 @@ def Build(tier):
     e['import_root'] = Resolve(e['import_root'])
     e['engine'] = [k[7:] for k in e['kind'] if k.startswith('engine:')][0]
     e.setdefault('fail_stage', 'ok')
+    e.setdefault('parser', 'PY')
+    e.setdefault('modules', [])
     e.setdefault('run', False)
   return entries, {
       'integration_available': len(integ),
